@@ -15,8 +15,231 @@ def build(reg, cfg=None):
     reg.add(M.delete_face_contract(PROP))
     reg.add(M.add_face_contract(PROP))
     reg.add(M.split_edge_contract(PROP))
+    reg.add(M.split_edge_contract(PROP, full=True))
+    reg.default_havoc = '*'
+    reg.add(M.merge_edge_contract(PROP))
+    SETKEYS = ['sset.member', 'set.size'] + ['vec.data.edge.' + l for l in M.EDGE_LEAVES]
+    for k in range(4):
+        # the four std::for_each at the end of merge_edge only edit the set of edges still to be checked
+        reg.add_loop(LoopContract('local_mesh_refiner::merge_edge', 'for_each#%d' % k, lambda L: [], modifies=SETKEYS))
+    build_refine(reg)
+    M.split_lemmas(reg, PROP)
 
 
-EXPLANATION = ""
-ASSUMPTIONS = []
-UNVERIFIED = []
+# ------------------------------------------------------------------------------------------------ native replay (ASan/UBSan build)
+DRIVER = r'''
+#include <cstdio>
+#include <cstdlib>
+#include <cmath>
+#include <map>
+#include <array>
+#include "local_mesh_refiner.hpp"
+#include "epithelial_cell.hpp"
+// One refinement pass (real local_mesh_refiner::refine_mesh) on an icosphere whose edges are all longer than l_max, so that every
+// edge is split; the node list has no spare capacity, so cell::add_node reallocates it. Built with ASan/UBSan: any use of a
+// reference into the old storage is reported. Afterwards momentum conservation and 'no surviving node moved' are checked.
+static void icosphere(double r, int sub, std::vector<double>& pos, std::vector<unsigned>& faces){
+  const double t = (1. + std::sqrt(5.)) / 2.;
+  std::vector<std::array<double,3>> v{{-1,t,0},{1,t,0},{-1,-t,0},{1,-t,0},{0,-1,t},{0,1,t},{0,-1,-t},{0,1,-t},{t,0,-1},{t,0,1},{-t,0,-1},{-t,0,1}};
+  std::vector<std::array<unsigned,3>> f{{0,11,5},{0,5,1},{0,1,7},{0,7,10},{0,10,11},{1,5,9},{5,11,4},{11,10,2},{10,7,6},{7,1,8},{3,9,4},{3,4,2},{3,2,6},{3,6,8},{3,8,9},{4,9,5},{2,4,11},{6,2,10},{8,6,7},{9,8,1}};
+  auto nrm = [](std::array<double,3>& p){ double n = std::sqrt(p[0]*p[0]+p[1]*p[1]+p[2]*p[2]); p[0]/=n; p[1]/=n; p[2]/=n; };
+  for(auto& p: v) nrm(p);
+  for(int s = 0; s < sub; s++){
+    std::map<std::pair<unsigned,unsigned>, unsigned> cache;
+    auto mid = [&](unsigned a, unsigned b){ auto k = std::make_pair(std::min(a,b), std::max(a,b)); auto it = cache.find(k); if(it != cache.end()) return it->second;
+      std::array<double,3> m{(v[a][0]+v[b][0])/2, (v[a][1]+v[b][1])/2, (v[a][2]+v[b][2])/2}; nrm(m); v.push_back(m); return cache[k] = (unsigned)v.size()-1; };
+    std::vector<std::array<unsigned,3>> f2;
+    for(auto& tr: f){ unsigned a = mid(tr[0],tr[1]), b = mid(tr[1],tr[2]), c = mid(tr[2],tr[0]); f2.push_back({tr[0],a,c}); f2.push_back({tr[1],b,a}); f2.push_back({tr[2],c,b}); f2.push_back({a,b,c}); }
+    f = f2;
+  }
+  for(auto& p: v){ pos.push_back(r*p[0]); pos.push_back(r*p[1]); pos.push_back(r*p[2]); }
+  for(auto& tr: f){ faces.push_back(tr[0]); faces.push_back(tr[1]); faces.push_back(tr[2]); }
+}
+static int inconsistent_edges(const cell_ptr& c){
+  // every edge must be traversed in opposite directions by its two triangles
+  std::map<std::pair<unsigned,unsigned>, int> dir; int bad = 0;
+  for(const face& f: c->get_face_lst()){ if(!f.is_used()) continue; auto [a,b,d] = f.get_node_ids(); unsigned v[3] = {a,b,d};
+    for(int i = 0; i < 3; i++){ unsigned x = v[i], y = v[(i+1)%3]; auto k = std::make_pair(std::min(x,y), std::max(x,y)); dir[k] += (x < y) ? 1 : -1; } }
+  for(auto& kv: dir) if(kv.second != 0) bad++;
+  return bad;
+}
+static double signed_volume(const cell_ptr& c){
+  double s = 0; for(const face& f: c->get_face_lst()){ if(!f.is_used()) continue; auto [a,b,d] = f.get_node_ids();
+    const vec3& p = c->get_node_lst()[a].pos(); const vec3& q = c->get_node_lst()[b].pos(); const vec3& r = c->get_node_lst()[d].pos(); s += p.dot(q.cross(r)); }
+  return s / 6.;
+}
+static vec3 total_momentum(const cell_ptr& c){ vec3 m(0,0,0); for(const node& nd: c->node_lst_) if(nd.is_used()) m = m + nd.momentum_; return m; }
+int main(int argc, char** argv){
+  const std::string mode = argc > 1 ? argv[1] : "split";
+  face_type_parameters ft; ft.name_ = "apical"; ft.face_type_global_id_ = 0;
+  auto ct = std::make_shared<cell_type_parameters>(); ct->name_ = "epithelial"; ct->global_type_id_ = 0; ct->add_face_type(ft);
+  std::vector<double> pos; std::vector<unsigned> faces; icosphere(1.0, mode == "dimple" ? 2 : 1, pos, faces);
+  if(mode == "dimple"){ for(size_t k = 0; k < pos.size() / 3; k++) if(pos[3*k+2] > 0.3) pos[3*k+2] = 0.6 - pos[3*k+2]; }     // cap reflected into the ball: a deep invagination
+  auto c = std::make_shared<epithelial_cell>(pos, faces, 0, ct); c->initialize_cell_properties(true);
+  c->node_lst_.shrink_to_fit(); c->face_lst_.shrink_to_fit();
+  const size_t n0 = c->node_lst_.size();
+  for(size_t k = 0; k < n0; k++) c->node_lst_[k].momentum_ = vec3(0.1*k + 0.3, -0.2*k, 0.05*k*k);
+  int bad = 0;
+  auto pass = [&](local_mesh_refiner& lmr, const char* what){
+    std::vector<vec3> p0; std::vector<bool> used0; for(const node& nd: c->node_lst_){ p0.push_back(nd.pos_); used0.push_back(nd.is_used()); }
+    const vec3 mom0 = total_momentum(c); const double vol0 = signed_volume(c);
+    const size_t free0 = c->free_node_queue_.size();
+    lmr.refine_mesh(c);
+    const vec3 mom1 = total_momentum(c);
+    if((mom1 - mom0).norm() > 1e-9 * (1 + mom0.norm())){ printf("FAIL %s: total momentum changed from (%g,%g,%g) to (%g,%g,%g)\n", what, mom0.dx(),mom0.dy(),mom0.dz(), mom1.dx(),mom1.dy(),mom1.dz()); bad = 1; }
+    if(free0 == 0 && mode != "reuse") for(size_t k = 0; k < p0.size(); k++) if(used0[k] && c->node_lst_[k].is_used() && (c->node_lst_[k].pos_ - p0[k]).norm() != 0){ printf("FAIL %s: surviving node %zu moved\n", what, k); bad = 1; break; }
+    if(!c->is_manifold()){ printf("FAIL %s: surface is no longer a closed manifold\n", what); bad = 1; }
+    int inc = inconsistent_edges(c); if(inc){ printf("FAIL %s: %d edges are traversed in the same direction by both of their triangles (inconsistent winding)\n", what, inc); bad = 1; }
+    if(signed_volume(c) <= 0){ printf("FAIL %s: enclosed volume is not positive any more (%g -> %g)\n", what, vol0, signed_volume(c)); bad = 1; }
+    return vol0;
+  };
+  try{
+    if(mode == "split"){ local_mesh_refiner lmr(0.1, 0.4, false); pass(lmr, "split pass"); }
+    else if(mode == "dimple"){ local_mesh_refiner lmr(1e-4, 0.2, false); double v0 = pass(lmr, "split pass on a cell with an invagination");
+      if(std::fabs(signed_volume(c) - v0) > 1e-9 * std::fabs(v0)){ printf("FAIL splits changed the enclosed volume %g -> %g\n", v0, signed_volume(c)); bad = 1; } }
+    else { // reuse: a collapse frees node slots, the splits of the next pass recycle them
+      { const unsigned u = faces[0], w = faces[1];       // two nodes joined by an edge
+        c->node_lst_[w].pos_ = c->node_lst_[u].pos_ + (c->node_lst_[w].pos_ - c->node_lst_[u].pos_) * 0.2; }
+      local_mesh_refiner lmr(0.3, 0.9, false); pass(lmr, "pass with a collapse");
+      size_t far = faces[faces.size() - 1]; c->node_lst_[far].pos_ = c->node_lst_[far].pos_ * 2.2;
+      pass(lmr, "pass with splits that recycle freed slots");
+    }
+  }catch(const std::exception& e){ printf("OK refused: %s\n", e.what()); return bad; }
+  if(!bad) printf("OK %s: %zu -> %zu nodes\n", mode.c_str(), n0, c->node_lst_.size());
+  return bad;
+}
+'''
+
+_CACHE = {}
+
+
+MODES = ['split', 'reuse', 'dimple']
+
+
+def _run_modes():
+    import native
+    if 'r' not in _CACHE:
+        res = []
+        for m in MODES:
+            code, out = native.run_driver(DRIVER, [m], sanitize=True, timeout=900)
+            res.append((m, code, out))
+            if code not in (0, 124, 125): break
+        _CACHE['r'] = res
+    return _CACHE['r']
+
+
+def replay(ob, ins, run):
+    """refinement passes of the real local_mesh_refiner under ASan/UBSan: (split) an icosphere whose edges are all too long, node list
+    without spare capacity; (reuse) a collapse followed by splits that recycle the freed slots; (dimple) a cell with a deep invagination.
+    Checked afterwards: total momentum, immobility of surviving nodes, closed manifold, consistent winding, positive / unchanged volume"""
+    res = _run_modes()
+    bad = [(m, c, o) for (m, c, o) in res if c not in (0, 124, 125)]
+    if bad:
+        m, c, o = bad[0]
+        return {'confirmed': True, 'exit': c, 'args': [m], 'output': o[-3000:], 'driver': 'specs/C11.py:DRIVER mode %s (real refine_mesh, ASan/UBSan build)' % m}
+    return {'confirmed': False, 'tried': [(m, c) for (m, c, o) in res], 'output': res[-1][2][-500:] if res else '', 'driver': 'specs/C11.py:DRIVER'}
+
+
+def replay_recorded(data):
+    import native
+    args = data.get('native', {}).get('args') or ['split']
+    code, out = native.run_driver(DRIVER, args, sanitize=True, timeout=900)
+    return {'confirmed': code not in (0, 124, 125), 'output': out}
+
+
+EXPLANATION = ("Mesh editing primitives under contract over a full model of std::set<edge> (membership + stored edge per sorted node pair): "
+               "cell::add_node (copy into the last free slot or append; every other node untouched; storage moves only when appending; free-slot "
+               "queue invariant - ids in range, pairwise different, slots unused - preserved), cell::get_edge, cell::delete_face(id) (slot freed; each "
+               "of its three edges loses the face or disappears with it; other edges/faces/vectors untouched; invariants preserved; no empty-optional "
+               "access), cell::add_face (copy into free slot or append; three edges created or completed; throws only when an edge already has two "
+               "faces). local_mesh_refiner::split_edge (physics and references): new node at the midpoint, momentum of {a,b,e} afterwards = momentum "
+               "of {a,b} before (2/3, 2/3, 1/3+1/3), no surviving node moves, momenta of other nodes untouched, the four requested triangles join "
+               "the new node to the old ones and are wound like the triangle they replace (lemma: half triangles keep the area-vector direction), "
+               "no reference into the node / face vectors is used after the vector may have reallocated, all indexings in bounds. split_edge "
+               "(topology, thorough tier): the callee preconditions at every call site, type labels inherited, split edge gone, four new edges with "
+               "two faces. merge_edge (physics): merged node at the midpoint with the summed momentum, both ends deleted, no other node touched. "
+               "refine_mesh loop body: splits only if l^2 > l_max^2, merges only if l^2 < l_min^2 and can_be_merged, never both, the operation "
+               "counter counts operations, an edge inside the band leaves everything as it is, without an operation the waiting set shrinks by one.")
+ASSUMPTIONS = ["DYNAMIC_MODEL_INDEX = 0 (momentum formulation); exact reals",
+               "the local configuration handed to split_edge (stored manifold edge, its two used faces with distinct opposite nodes, free-slot queue invariants, stored edges match their keys) - the data invariant of C01, required here",
+               "merge_edge: cell::replace_node resets only the replaced node and does not resize the node list; cell::delete_face writes what its own contract lists (their call-site preconditions inside merge_edge are not discharged: topology of the collapse is not under contract)",
+               "quick tier: add_face / delete_face as callees of split_edge(physics) are used through their frame and result range; their call-site preconditions are discharged by split_edge(topology) in the thorough tier",
+               "std::set<edge> as modelled in models.py (keyed by the sorted node pair: the Cantor hash is injective on pairs below 2^26)"]
+UNVERIFIED = ["termination of refine_mesh: the counter bound 'iteration < number of edges' moves with the edge count; each split halves an edge, so the pass ends for finite positions - a geometric argument not made here",
+              "volume / area preservation of a split (follows from: midpoint on the edge, windings kept - stated, the summation over the surface is not)",
+              "swap_edge and remove_elongated_triangles (triangle quality rule), merge_edge topology and can_be_merged (link condition)",
+              "idempotence of a whole pass on a conforming mesh follows from the loop-body clause 'edge inside the band leaves the mesh as it is' only when edge swapping is disabled"]
+
+
+# ---- refine_mesh: one arbitrary iteration of the refinement loop -----------------------------------------------------------------------------
+def flag(name):
+    def rm(C, st):
+        st.ghost[name] = z3.BoolVal(True)
+        return None
+    return rm
+
+
+def can_merge_ret(C, st):
+    r = C.e.fresh('can_be_merged', B)
+    st.ghost['can_merge_answer'] = r
+    return r
+
+
+def refine_setup(eng, st, args, this):
+    st.ghost['did_split'] = z3.BoolVal(False); st.ghost['did_merge'] = z3.BoolVal(False); st.ghost['can_merge_answer'] = z3.BoolVal(False)
+
+
+def refine_callees():
+    mesh_edit = lambda C: [('*', [])]
+    return [Contract('local_mesh_refiner::split_edge', PROP, assumed=True, frame=mesh_edit, throws=['mesh_integrity_exception'], ret_model=flag('did_split'), name='split_edge (own contract above)'),
+            Contract('local_mesh_refiner::merge_edge', PROP, assumed=True, frame=mesh_edit, throws=['mesh_integrity_exception'], ret_model=flag('did_merge'), name='merge_edge (own contract above)'),
+            Contract('local_mesh_refiner::can_be_merged', PROP, assumed=True, frame=lambda C: [], throws=['mesh_integrity_exception'], ret_model=can_merge_ret, name='can_be_merged (some boolean, no side effect)')]
+
+
+def lvv(C, name, st):
+    for k, v in st.env.items():
+        if C.e.var_names.get(k) == name and not str(k).startswith(('tmp!', 'glob!', 'param', 'rangeidx!')):
+            from values import LVS
+            if isinstance(v, LVS) and not isinstance(v, ObjLV): return C.e.load(st, v)
+            return v
+    raise KeyError(name)
+
+
+def refine_body_pre(C):
+    o = C.old
+    c = C.arg('c').ref
+    return [('cell-non-null', z3.And(c > 0, C.e.root_of(c) > 0)),
+            # the edges waiting to be checked are edges of the cell: their node ids are slots of the node list
+            ('waiting-edges-join-nodes-of-the-cell', QForall(lambda k: z3.Implies(M.member(o, lvv(C, 'edge_to_check_set', C.pre_state).ref, k),
+                                                                                   z3.And(M.stored(o, lvv(C, 'edge_to_check_set', C.pre_state).ref, k, 'n1_id_') >= 0, M.stored(o, lvv(C, 'edge_to_check_set', C.pre_state).ref, k, 'n1_id_') < o.len(M.nodes(o, c)),
+                                                                                          M.stored(o, lvv(C, 'edge_to_check_set', C.pre_state).ref, k, 'n2_id_') >= 0, M.stored(o, lvv(C, 'edge_to_check_set', C.pre_state).ref, k, 'n2_id_') < o.len(M.nodes(o, c)))), 1, 'waiting edges'))]
+
+
+def refine_body_post(C):
+    if C.outcome not in (None, 'ret', 'continue', 'end'):
+        return [('an-iteration-ends-normally-or-with-the-integrity-exception:' + str(C.outcome), z3.BoolVal(C.outcome == 'throw:mesh_integrity_exception'))]
+    o, n = C.old, C.new
+    g = C.post_state.ghost
+    this = C.this
+    c = C.arg('c').ref
+    e = lvv(C, 'e_ab', C.post_state)
+    nl = M.nodes(o, c)
+    A, Bn = o.elem(nl, e.f['n1_id_']), o.elem(nl, e.f['n2_id_'])
+    d = o.v3(A, 'node.pos_') - o.v3(Bn, 'node.pos_')
+    L2 = d.sq()
+    lmax2 = o.f(this, 'local_mesh_refiner.l_max_squared_'); lmin2 = o.f(this, 'local_mesh_refiner.l_min_squared_')
+    it0 = lvv(C, 'iteration', C.pre_state); it1 = lvv(C, 'iteration', C.post_state)
+    S = lvv(C, 'edge_to_check_set', C.pre_state).ref
+    return [('cover:split', g['did_split']), ('cover:merge', g['did_merge']), ('cover:edge-in-the-band', z3.And(z3.Not(g['did_split']), z3.Not(g['did_merge']))),
+            ('splits-only-an-edge-longer-than-l_max', z3.Implies(g['did_split'], L2 > lmax2)),
+            ('merges-only-an-edge-shorter-than-l_min-that-may-be-merged', z3.Implies(g['did_merge'], z3.And(L2 < lmin2, g['can_merge_answer']))),
+            ('never-both', z3.Not(z3.And(g['did_split'], g['did_merge']))),
+            ('operation-counter-counts-the-operations', it1 == it0 + z3.If(z3.Or(g['did_split'], g['did_merge']), 1, 0)),
+            ('an-edge-inside-the-band-leaves-the-mesh-as-it-is', z3.Implies(z3.And(L2 <= lmax2, L2 >= lmin2), z3.And(z3.Not(g['did_split']), z3.Not(g['did_merge'])))),
+            ('without-an-operation-the-waiting-set-shrinks-by-the-examined-edge', z3.Implies(z3.And(z3.Not(g['did_split']), z3.Not(g['did_merge'])),
+                                                                                            z3.And(n.f(S, 'set.size') == o.f(S, 'set.size') - 1)))]
+
+
+def build_refine(reg):
+    reg.add(Contract('local_mesh_refiner::refine_mesh', PROP, pre=refine_body_pre, post=refine_body_post, slice_loop=0, use=refine_callees(), setup=refine_setup,
+                     safety={'bounds', 'null-deref'}, name='local_mesh_refiner::refine_mesh::<loop body>'))
